@@ -70,6 +70,7 @@ func main() {
 			"P2 all pairs of trees over names {a,b} with per-name state in {absent, file P, file Q, symlink->a, symlink->b, dir{}, dir{c:P}, dir{c:Q}} (64 trees, 4096 pairs); " +
 			"P3 the stride slice of C01's block-level family F1 (<=2 files on {a,d/b}, contents = <=2 symbols over 64KiB blocks {A,B} + tail in {none,1,B-1,B-1-prefix-of-A}), each pair with the plain patch and with the optimized patch (rediff, partitions 0 and 2). " +
 			"Each case: real WritePatch -> patcher + overlay bowl onto a copy of the old build with the stage folder outside it; snapshot right before Commit must equal the old build (and nothing may have been rewritten), Commit must return nil, snapshot after Commit must equal the new build (independent Lstat tree oracle, nothing extra). " +
+			"Quick and thorough differ only in the stride of the P3 slice (3533 -> 201 pairs, 353 -> 2004 pairs). " +
 			"Non-trivial = the commit has >= 2 transpositions, or a transposition that needs a clash rename (.butler-rename), or a transposition whose source also has a pending overlay, or an overlay with a SKIP run (P3), or a kind change of a path (P2).",
 		Assumptions: []string{
 			"the iteration order of the Go maps ranged over by applyTranspositions is NOT enumerated yet (needs the scheduler/map-order instrumentation, hook: mapOrders()); every case runs once, and every case with >= 2 transpositions or >= 2 overlay files is re-run 3 more times under Go's random map order, which makes other orders likely but does not guarantee them",
@@ -79,7 +80,7 @@ func main() {
 			"a failure or panic of the optimizer itself (rediff/bsdiff) is not judged here (C07/C12): the case is recorded with outcome rediff-failed and skipped",
 			"case-insensitive file systems (fixExistingCase) are not exercised",
 		},
-		QuickBudget:    80 * time.Second,
+		QuickBudget:    120 * time.Second,
 		ThoroughBudget: 12 * time.Minute,
 	}, body)
 }
@@ -204,7 +205,10 @@ func facts(dp *wh.Patch) patchFacts {
 	return f
 }
 
-var dumpPath = os.Getenv("VERIF_C02_DUMP") // debugging aid: append every failure as a JSON line
+// VERIF_C02_DUMP=<file> is a debugging aid: every failure (and every optimizer
+// failure, prefixed INFO:) is appended to the file as one JSON line, so that
+// all failing cases of a run can be clustered (the runner keeps 3 per class).
+var dumpPath = os.Getenv("VERIF_C02_DUMP")
 
 func dump(c Case, fp, msg string) {
 	if dumpPath == "" {
@@ -290,9 +294,6 @@ func body(w *runner.W) {
 		}
 		if len(cl.triggers) > 0 {
 			outcome += " trigger=" + cl.primary()
-			if !failed {
-				dump(c, "PASS:"+cl.primary(), "")
-			}
 		}
 		if failed {
 			outcome += " FAILED"
@@ -303,7 +304,7 @@ func body(w *runner.W) {
 	// ---------------- P1: files over {a,b,c} x {absent,P,Q,R} ----------------
 	p1 := runner.NewSub(w, "P1-renames", run)
 	if p1.Active() {
-		trees := p1Trees(w.Quick())
+		trees := p1Trees()
 		for _, o := range trees {
 			for _, n := range trees {
 				p1.Do(Case{Fam: "P1", Old: o, New: n, Patch: "plain"})
@@ -316,7 +317,7 @@ func body(w *runner.W) {
 	// ---------------- P2: kinds over {a,b} ----------------
 	p2 := runner.NewSub(w, "P2-kinds", run)
 	if p2.Active() {
-		trees := p2Trees(w.Quick())
+		trees := p2Trees()
 		for _, o := range trees {
 			for _, n := range trees {
 				p2.Do(Case{Fam: "P2", Old: o, New: n, Patch: "plain"})
